@@ -231,8 +231,8 @@ def report(run, drv, coverage_extra=None, exhaustive=True):
     for case, out in run.errors[:5]:
         print("HARNESS-ERROR property=%s case=%s\n%s" % (pid, json.dumps(case, default=str)[:400],
                                                           out.get("tb", out.get("what"))))
-    if run.errors:
-        rc = max(rc, 2)
+    if run.errors and rc == 0:
+        rc = 2      # harness errors only: no verdict (a reported violation keeps exit code 1)
     cov = dict(
         evaluations=run.evaluations,
         distinct_cases=len(run.keys),
